@@ -245,6 +245,10 @@ def decision(enc, v, form=None):
         dt = form.get("dtype", "int64")
         if dt == "int8" and vals and max(vals) > 127:
             dt = "int64"
+        if dt == "bool" and (enc != "binary" or any(v not in (0, 1) for v in vals)):
+            dt = "int64"             # boolean vectors: what pymoo's binary operators hand to a binary problem
+        if dt == "float64" and enc == "subset":
+            dt = "int64"             # whole-valued float vectors: what real-coded operators hand to integer problems
         x = numpy.array(vals, dtype=dt)
     else:
         x = numpy.array([_f(x) for x in v], dtype=float)
@@ -362,10 +366,23 @@ def _gen_data(rng, crit, n=None, common=False):
                         geno[i][j] = 1
         # targets: exactly 0, 1/4, 1/2, 3/4, 1 and, now and then, targets within 1e-9 of 0 and 1 (interior targets)
         tf = [F(0), F(1), F(1, 2), F(1, 4), F(3, 4), F(0), F(1), F(1, 2 ** 30), 1 - F(1, 2 ** 30)]
+        tfreq = [[canon.enc(rng.choice(tf)) for _ in range(t)] for _ in range(m)]
+        if rng.random() < 0.5:
+            # planted boundary: an interior target within 1e-9 of 0 (resp. 1) at a locus where nobody (resp. everybody)
+            # carries the allele -- unattainable, although the target is "almost" the fixation the population is at
+            j0 = rng.randrange(m)
+            for row in geno:
+                row[j0] = 0
+            tfreq[j0][rng.randrange(t)] = canon.enc(F(1, 2 ** 30))
+            if m >= 2:
+                j1 = rng.choice([j for j in range(m) if j != j0])
+                for row in geno:
+                    row[j1] = ploidy
+                tfreq[j1][rng.randrange(t)] = canon.enc(1 - F(1, 2 ** 30))
         return {"geno": geno, "ploidy": ploidy,
                 "mkrwt": [[canon.enc(Fraction(rng.randint(1, 9), rng.choice([1, 2, 4]))) for _ in range(t)]
                           for _ in range(m)],
-                "tfreq": [[canon.enc(rng.choice(tf)) for _ in range(t)] for _ in range(m)]}
+                "tfreq": tfreq}
     raise ValueError(crit)
 
 
@@ -375,22 +392,29 @@ BIG_N = {"OCS": 40, "MGR": 40, "MEH": 40, "L2": 24}      # kinship criteria: the
 RECIP_SIZES = [49, 98, 103, 107]        # (1.0/k)*k != 1.0 in binary64
 
 
-def gen_latent_case(rng, crit=None, n=None, big=False, recip=False):
+def gen_latent_case(rng, crit=None, n=None, big=False, recip=False, scale=None, mid=False, style=None):
     """`big`: a population past the 8-bit limits (more than 127 candidates, subsets of more than 63 / 127
     members, allele counts of the subset above 127, count vectors whose total exceeds 127)"""
     crit = crit or rng.choice(list(CRITS))
-    style = None
     if big:
         n = BIG_N.get(crit, rng.choice([130, 140, 150]))
-    elif rng.random() < 0.15:
+    elif mid:
+        n = rng.choice([50, 53, 60])            # a population just large enough for a subset of 49
+    elif style is None and rng.random() < 0.15:
         style = rng.choice(["offset", "tiny", "huge"])
-    data = gen_data(rng, crit, n, style=style, common=big)
+    data = gen_data(rng, crit, n, style=style, common=big or mid)
     n = ncand(crit, data)
     k = rng.randint(1, n)
     if big:
         k = rng.randint(min(n, 129), n) if n > 129 else rng.randint(n // 2, n)
         if recip and n > 107:
             k = rng.choice(RECIP_SIZES)         # subset sizes whose float reciprocal is inexact
+        elif crit in ("PAFD", "PAU", "MOGS"):
+            k = n                               # everybody: the one or two carriers that keep a locus from fixation are in
+        if crit == "GB":
+            data["nbest"] = rng.randint(1, k)
+    elif mid:
+        k = 49
         if crit == "GB":
             data["nbest"] = rng.randint(1, k)
     if crit == "GB":
@@ -401,6 +425,10 @@ def gen_latent_case(rng, crit=None, n=None, big=False, recip=False):
     # rescaling factors: moderate ones and (dyadic) extreme ones that bring the total of a vector near 1e-6 .. 1e-9
     # (still >= 1e-10, the classes' own guard) or to 1e6
     a = rng.choice([F(2), F(3), F(1, 2), F(5, 4), F(7), F(1, 8), F(1, 2 ** 20), F(1, 2 ** 27), F(1, 2 ** 29), F(2 ** 20)])
+    if scale == "tiny":
+        a = rng.choice([F(1, 2 ** 27), F(1, 2 ** 29)])
+    elif scale == "huge":
+        a = F(2 ** 20)
     case = {"kind": "latent", "crit": crit, "data": data, "S": S, "perm": perm, "a": canon.enc(a)}
     if len(CRITS[crit]["classes"]) > 1:
         x = [rng.choice([0, 0, 1, 2, 3, 5]) for _ in range(n)]
@@ -421,7 +449,7 @@ def gen_latent_case(rng, crit=None, n=None, big=False, recip=False):
     if big:
         case["xform"] = {"dtype": "int8"}          # 8-bit index / count / indicator vectors (totals above 127)
     elif r < 0.3:
-        case["xform"] = {"dtype": rng.choice(["int32", "int8", "int16", "intp"])}
+        case["xform"] = {"dtype": rng.choice(["int32", "int8", "int16", "intp", "bool", "float64", "bool", "float64"])}
         if rng.random() < 0.5:
             case["xform"]["strided"] = True
     elif r < 0.4:
@@ -429,7 +457,7 @@ def gen_latent_case(rng, crit=None, n=None, big=False, recip=False):
     return case
 
 
-TRANS_BUILTIN = ("identity", "sum", "dot", "empty", "decn_sum_eq")
+TRANS_BUILTIN = ("identity", "sum", "dot", "empty", "decn_sum_eq", "slice", "penalty", "affine")    # all modelled (Trans)
 
 
 def gen_trans(rng, nl, role):
@@ -457,11 +485,12 @@ def gen_trans(rng, nl, role):
     return {"t": "affine", "m": canon.enc(Fraction(rng.randint(1, 5))), "c": canon.enc(Fraction(rng.randint(-3, 3)))}, nl
 
 
-def gen_eval_case(rng):
-    crit = rng.choice(list(CRITS))
+def gen_eval_case(rng, crit=None, enc=None):
+    crit = crit or rng.choice(list(CRITS))
     encs = list(CRITS[crit]["classes"])
-    enc = rng.choice(encs)
-    data = gen_data(rng, crit)
+    enc = enc or rng.choice(encs)
+    # magnitudes: now and then data with a large common offset, around 1e-8 or around 1e9 (see _val)
+    data = gen_data(rng, crit, style=(rng.choice(["offset", "tiny", "huge"]) if rng.random() < 0.15 else None))
     n = ncand(crit, data)
     nl = nlatent(crit, data)
     nsol = rng.randint(1, 3)
@@ -487,7 +516,13 @@ def gen_eval_case(rng):
             if not any(x):
                 x[rng.randrange(n)] = 1
             X.append(x)
+    if len(X) >= 2 and rng.random() < 0.35:
+        # a batch with repeated rows, in no particular order (evaluate(X) must answer row by row)
+        for _ in range(rng.randint(1, 2)):
+            X.insert(rng.randrange(len(X) + 1), list(X[rng.randrange(len(X))]))
     case = {"kind": "evalfn", "crit": crit, "enc": enc, "data": data, "X": X}
+    if rng.random() < 0.3:
+        case["elementwise"] = False
 
     def weights(ln):
         # distinct weights per role, mixed signs, never 0 or 1 so that a swapped weight vector shows
@@ -502,6 +537,16 @@ def gen_eval_case(rng):
         if r < 0.06:
             # transformation left at its default (None): identity for the objectives, empty for the constraints
             tr, ln = {"t": "default"}, (nl if role == "obj" else 0)
+        if tr["t"] == "decn_sum_eq" and rng.random() < 0.4:
+            # a target within 1e-6 .. 1e-9 of the total of the first decision vector, but not equal to it; for the
+            # documented default target (1.0) a real decision vector whose total is 1 - 2^-30
+            d = Fraction(rng.choice([1, -1]), 2 ** rng.choice([20, 27, 30]))
+            if not tr.get("default_kw"):
+                tr = {"t": "decn_sum_eq", "target": canon.enc(abs(sum(Fraction(v) for v in X[0]) + d))}
+            elif enc == "real" and n >= 2:
+                i, j = rng.sample(range(n), 2)
+                X[0] = [0] * n
+                X[0][i], X[0][j] = canon.enc(Fraction(1, 2)), canon.enc(Fraction(1, 2) - Fraction(1, 2 ** 30))
         case[role + "_trans"] = tr
         case[role + "_wt"] = weights(ln)
         # rarely used argument forms of the weights: one Real for all entries, or None (= 1.0 everywhere)
@@ -529,23 +574,42 @@ def gen_eval_case(rng):
                 tr["target"] = canon.enc(Fraction(rng.randint(0, 8), 2))
             elif tr["t"] == "affine":
                 tr["m"], tr["c"] = canon.enc(Fraction(rng.randint(1, 5))), canon.enc(Fraction(rng.randint(-3, 3)))
+            if tr["t"] != "default" and rng.random() < 0.35:
+                # the transformation FUNCTION itself re-declared (same output length)
+                ln = len(case[role + "_wt"])
+                if ln == nl and tr["t"] in ("identity", "penalty", "affine"):
+                    alt = rng.choice([{"t": "identity"}, {"t": "penalty", "thr": canon.enc(Fraction(rng.randint(-8, 8), 2))},
+                                      {"t": "affine", "m": canon.enc(Fraction(rng.randint(2, 5))),
+                                       "c": canon.enc(Fraction(rng.randint(-3, 3)))}])
+                elif ln == 1 and tr["t"] in ("sum", "dot", "slice", "decn_sum_eq"):
+                    alt = rng.choice([{"t": "sum"}, {"t": "slice"},
+                                      {"t": "dot", "w": [canon.enc(Fraction(rng.randint(-6, 6), 2)) for _ in range(nl)]},
+                                      {"t": "decn_sum_eq", "target": canon.enc(Fraction(rng.randint(0, 8), 2))}])
+                else:
+                    alt = None
+                if alt is not None and alt["t"] != tr["t"]:
+                    tr = dict(alt, refn=True)
             sec[role + "_trans"] = tr
         case["second"] = sec
     if rng.random() < 0.2:
         case["layout"] = rng.choice(["F", "strided", "neg"])
-    if rng.random() < 0.2:
+    r = rng.random()
+    if r < 0.2:
         case["xform"] = {"strided": True}
+    elif r < 0.35:
+        case["xform"] = {"dtype": rng.choice(["bool", "float64", "int32"])}
     return case
 
 
+DERIVED_STATE = ("PAU", "PAFD", "MOGS", "FAMILY")           # setters compute masks / indices from the assigned value
 INPLACE_UNSAFE = ("tfreq", "familyid", "ploidy", "nbest")    # derived masks / indices are computed by the setters
 
 
-def gen_reassign_case(rng, crit=None):
+def gen_reassign_case(rng, crit=None, enc=None, flip=False):
     """history on ONE problem object: query latentfn, replace the data (by assigning the documented properties
     or by editing the held arrays in place), query again.  The second answer must be the definition on the new data."""
     crit = crit or rng.choice(list(CRITS))
-    enc = rng.choice(list(CRITS[crit]["classes"]))
+    enc = enc or rng.choice(list(CRITS[crit]["classes"]))
     n = rng.choice([3, 4, 5, 6])
     st = rng.getstate()
     data = gen_data(rng, crit, n)
@@ -560,6 +624,23 @@ def gen_reassign_case(rng, crit=None):
         rng.setstate(st)
         data = gen_data(rng, crit, n)
         data2 = data
+    if flip and crit in ("PAU", "PAFD", "MOGS"):
+        # the second data set differs from the first in the CATEGORY of the targets only (fixation targets exchanged,
+        # interior ones sent to a fixation), at loci the whole population is fixed at: whatever the setter derives from
+        # `tfreq` must follow the re-assignment
+        import copy
+        data = copy.deepcopy(data)
+        m = len(data["mkrwt"])
+        for row in data["geno"]:
+            row[0] = data["ploidy"]
+            if m > 1:
+                row[1] = 0
+        data["tfreq"][0] = [1 for _ in data["tfreq"][0]]
+        if m > 1:
+            data["tfreq"][1] = [0 for _ in data["tfreq"][1]]
+        data2 = copy.deepcopy(data)
+        data2["tfreq"] = [[(0 if Fraction(v) >= 1 else 1 if Fraction(v) <= 0 else rng.choice([0, 1])) for v in r]
+                          for r in data["tfreq"]]
     k = rng.randint(1, n)
     if crit == "GB":
         k = rng.randint(max(int(data["nbest"]), int(data2["nbest"])), n)
@@ -641,7 +722,8 @@ def make_trans(desc, log):
 
     def spy(decnvec, latentvec, **kw):
         out = fn(decnvec, latentvec, **kw)
-        log.append({"x": canon.enc(numpy.asarray(decnvec)), "latent": canon.enc(numpy.asarray(latentvec)),
+        dv = numpy.asarray(decnvec)
+        log.append({"x": canon.enc(dv.astype("int64") if dv.dtype == bool else dv), "latent": canon.enc(numpy.asarray(latentvec)),
                     "kwargs": sorted(kw), "out": canon.enc(numpy.asarray(out))})
         return out
     return spy, kwargs
@@ -684,8 +766,8 @@ def _close_vec(a, b, rel=1e-9, abs_=1e-12):
 class C05(Prop):
     PID = "C05"
     MODULE = "PybropsModel.Props.C05"
-    N_QUICK = 1500
-    N_THOROUGH = 15000
+    N_QUICK = 850
+    N_THOROUGH = 6000
     CORRESPONDENCE = "functional"
     RULE = ("per case one criterion of the 19-entry table (%d concrete classes incl. the genotype builder; plus the look-ahead class with a scripted mating protocol and the under-construction mating class, which only raises), data over small integers / dyadic "
             "rationals with distinct entries (upper-triangular asymmetric kinship factors, unsorted family labels, "
@@ -701,6 +783,12 @@ class C05(Prop):
             "two factory calls on the same population objects with reorder_taxa / sort_taxa / group_taxa / mat / u_a assigned in between; "
             "(argument forms) Fortran-ordered, strided and reverse-strided data arrays, int8/int16/int32 and non-contiguous decision vectors, scalar / None weights, default transformations and default target, ploidy 1 and 4, four-phase genotype matrices, 1-3 parents per cross with and without selfs, "
             "per-taxon nrep / nprogeny arrays with unequal entries, label-free breeding value matrices, one-marker chromosomes; fully and partly inbred lines through the real doubled-haploid simulation (EMBV = GEBV, resp. within the range of the line's doubled haploids).  "
+            "Round 4 case classes: (two objects / three channels) problem A evaluated, problem B (half of the time the same class) built, evaluated and re-configured - keyword arguments and weights assigned through the setters or edited in place through the containers the getters return, "
+            "transformations without keyword arguments declared with None, default weights - then A evaluated again: every evaluation of A must meet A's own declaration; "
+            "(histories) every criterion re-assigned / edited in place on one object in every run, the classes whose setters derive masks / indices (allele-frequency targets, family labels) three times, compared with the stateful object model as well; the transformation FUNCTION re-declared between two evaluations; "
+            "(entry points) every factory method of every concrete class (104 per run, cycled through the four encodings) is handed a full evaluation declaration (weights as array / scalar / None, transformations with keyword arguments, constraint counts) and evalfn of the returned problem is checked against it; every one of the 60 constructors twice per run; "
+            "(argument forms) boolean and whole-valued float64 decision vectors, elementwise=False (pymoo hands whole batches to _evaluate), batches with repeated rows in no particular order; "
+            "(magnitudes) evalfn on data with offset 25000 / around 1e-8 / around 1e9, decision totals within 1e-6 .. 1e-9 of the declared target of trans_decnvec_sum_eq (target 1.0 by default: total 1 - 2^-30).  "
             "Non-trivial = at least two candidates, a "
             "proper subset or a non-uniform vector, and a latent vector that is not all zero" % NCLASSES)
     TRUSTED = ["numpy.linalg.norm(.., ord=2) = sqrt of the sum of squares; numpy.power; numpy.linalg.cholesky and "
@@ -708,7 +796,9 @@ class C05(Prop):
                "(Model/Coancestry.lean, op c05.kinship) from the genotype counts; the diagonal may exceed it by the jitter <= 0.5e-6",
                "genetic variance factories (C12), haplotype binning (C18), mating simulation (C01) are stubbed / taken as given "
                "in the factory cases: the factory code around them is what is checked here",
-               "pymoo's Problem.evaluate plumbing (only its call of _evaluate is exercised)",
+               "pymoo's Problem.evaluate plumbing (only its call of _evaluate is exercised, elementwise and batch-wise)",
+               "the harness's own user transformations (slice / penalty / affine) are modelled as Selection.Trans constructors; "
+               "that a container returned by a getter is live (edits in place are seen by the owner) is NOT demanded",
                "EMBV matrix factory: the doubled-haploid simulation (dense_dh, C01) and the prediction are scripted in the "
                "model-compared cases (the real DenseBreedingValueMatrix.tmax is run on the scripted values); the real simulation "
                "is run on fully / partly inbred lines, where the result is determined resp. bounded without knowing the draws"]
@@ -763,8 +853,8 @@ class C05(Prop):
         out.append({"kind": "guard", "crit": "EBV", "data": {"D": D}, "enc": "binary", "x": [0, 0, 0, 0]})
         out.append({"kind": "guard", "crit": "GEBV", "data": {"D": D}, "enc": "real",
                     "x": ["1/100000000000000", 0, 0, 0]})
-        from . import c05_factories
-        return out + c05_factories.corpus()
+        from . import c05_factories, c05_isolation
+        return out + c05_isolation.corpus() + c05_factories.corpus()
 
     def generate(self, rng, n, tier):
         from . import c05_factories
@@ -772,24 +862,41 @@ class C05(Prop):
         crits = list(CRITS)
         combos = list(c05_factories.COMBOS)
         nfac = 0
+        neval = 0
+        pairs = [(c, e) for c in crits for e in CRITS[c]["classes"]]
         for i in range(n):
             r = rng.random()
             if r < 0.02:
                 out.append(gen_lookahead_case(rng))
             elif r < 0.24:
                 # cycle through the (factory, criterion) pairs as well
-                if nfac < 3 * len(combos):
-                    out.append(c05_factories.gen_case(rng, *combos[nfac % len(combos)]))
+                if nfac < 4 * len(combos):
+                    # every (factory, criterion) pair in every decision encoding: each concrete class has its own
+                    # copy of the factory method (and of the hand-over of the evaluation declaration)
+                    out.append(c05_factories.gen_case(rng, *combos[nfac % len(combos)],
+                                                      enc=ENCODINGS[(nfac // len(combos)) % 4]))
                 else:
                     out.append(c05_factories.gen_case(rng))
                 nfac += 1
             elif r < 0.66:
                 # cycle through the table so that every class is met in every run
-                out.append(gen_latent_case(rng, crits[i % len(crits)] if i < 3 * len(crits) else None))
+                nlat = sum(1 for c in out if c["kind"] == "latent")
+                if nlat < 3 * len(crits):
+                    # first round: rescaling down to totals of 1e-8 .. 1e-9, second: up by 2^20, third: at random
+                    rnd = nlat // len(crits)
+                    out.append(gen_latent_case(rng, crits[nlat % len(crits)], scale=("tiny", "huge", None)[rnd],
+                                               style=(None, "offset", rng.choice(["tiny", "huge"]))[rnd]))
+                else:
+                    out.append(gen_latent_case(rng))
             elif r < 0.70:
                 out.append(gen_reassign_case(rng))
+            elif r < 0.74:
+                from . import c05_isolation
+                out.append(c05_isolation.gen_case(rng))
             elif r < 0.97:
-                out.append(gen_eval_case(rng))
+                # every concrete class (its own constructor hands the declaration on) twice per run, then at random
+                out.append(gen_eval_case(rng, *(pairs[neval % len(pairs)] if neval < 2 * len(pairs) else ())))
+                neval += 1
             else:
                 crit = rng.choice(sorted(GUARDED))
                 data = gen_data(rng, crit)
@@ -804,6 +911,23 @@ class C05(Prop):
         nbig = 2 * len(crits) if tier == "quick" else 8 * len(crits)
         for i in range(nbig):
             out.append(gen_latent_case(rng, crits[i % len(crits)], big=True, recip=(i // len(crits)) % 2 == 1))
+        # histories on one object, every criterion in every run: the classes whose setters derive further state from
+        # what is assigned (target-frequency masks, family index) three times, the others once
+        for crit in crits:
+            for enc in CRITS[crit]["classes"]:
+                out.append(gen_reassign_case(rng, crit, enc))
+            for _ in range(2 if crit in DERIVED_STATE else 0):
+                out.append(gen_reassign_case(rng, crit, flip=True))
+        # two factory calls on the same population objects with an in-place edit in between: every factory that reads
+        # population objects, once with the rows re-ordered and once with the values replaced
+        for fac in c05_factories.HISTORY_FACTORIES:
+            for want in ("reorder", "assign_mat"):
+                out.append(c05_factories.gen_case(rng, fac, history=want))
+        # subsets of 49 out of 50-60 (inexact reciprocal, allele counts just below / above the 8-bit limit, loci one copy
+        # away from fixation) for the criteria that form allele frequencies
+        for crit in ("PAFD", "PAU", "MOGS"):
+            for _ in range(2):
+                out.append(gen_latent_case(rng, crit, mid=True))
         return out
 
     def exhaustive(self, tier):
@@ -911,6 +1035,9 @@ class C05(Prop):
         if kind == "factory":
             from . import c05_factories
             return c05_factories.run(case)
+        if kind == "isolation":
+            from . import c05_isolation
+            return c05_isolation.run(self, case)
         raise ValueError(kind)
 
     def _run_reassign(self, case):
@@ -924,8 +1051,12 @@ class C05(Prop):
             lat = canon.enc(numpy.asarray(p.latentfn(x), dtype=float))
             o, _, _ = p.evalfn(x)
             res = p.evaluate(x, return_as_dictionary=True)
-            return {"latent": lat, "obj": canon.enc(numpy.asarray(o, dtype=float)),
-                    "F": canon.enc(numpy.asarray(res["F"], dtype=float))}
+            out = {"latent": lat, "obj": canon.enc(numpy.asarray(o, dtype=float)),
+                   "F": canon.enc(numpy.asarray(res["F"], dtype=float))}
+            if crit == "FAMILY":
+                out["family"] = [int(v) for v in p.family]
+                out["familyix"] = [int(v) for v in p.familyix]
+            return out
         # prime whatever the object may remember
         if case["prime"] == "latentfn":
             p.latentfn(x)
@@ -980,6 +1111,9 @@ class C05(Prop):
 
             def __init__(self):
                 self.i = 0
+                # every concrete mating protocol holds its generator; since a6a4b0a3 the look-ahead problem shuffles the
+                # selected parents with it (before: numpy's global stream)
+                self.rng = numpy.random.RandomState(777)
 
             def mate(self, pgmat, xconfig, nmating, nprogeny, miscout, **kw):
                 sim, gen = divmod(self.i, ngen)
@@ -1005,7 +1139,10 @@ class C05(Prop):
             numpy.random.set_state(state)
         return {"latent": canon.enc(numpy.asarray(lat, dtype=float)), "steps": steps, "n0": n0}
 
-    def _run_evalfn(self, case):
+    def _eval_problem(self, case, none_for_empty=False):
+        """build the problem of an evalfn-style case part with spy transformations; returns (problem, logs, one)
+        where one(xv) evaluates one decision vector.  `none_for_empty`: a transformation without keyword arguments
+        is declared with `*_trans_kwargs=None` (the documented way) instead of an explicit empty dict"""
         crit, enc, data = case["crit"], case["enc"], case["data"]
         logs = {r: [] for r in ("obj", "ineqcv", "eqcv")}
         std = {}
@@ -1013,7 +1150,7 @@ class C05(Prop):
         for r in ("obj", "ineqcv", "eqcv"):
             fn, kw = make_trans(case[r + "_trans"], logs[r])
             std[r + "_trans"] = fn
-            std[r + "_trans_kwargs"] = kw
+            std[r + "_trans_kwargs"] = None if (none_for_empty and not kw) else kw
             if forms.get(r) == "scalar":
                 std[r + "_wt"] = _f(case[r + "_wt"][0])
             elif forms.get(r) == "none":
@@ -1023,6 +1160,8 @@ class C05(Prop):
         std["nobj"] = len(case["obj_wt"])
         std["nineqcv"] = len(case["ineqcv_wt"])
         std["neqcv"] = len(case["eqcv_wt"])
+        if case.get("elementwise") is False:
+            std["elementwise"] = False         # rarely used option: pymoo hands the whole batch to _evaluate at once
         X = case["X"]
         p = build(crit, enc, data, k=len(X[0]), layout=case.get("layout"), **std)
 
@@ -1036,6 +1175,12 @@ class C05(Prop):
                     "ineqcv": canon.enc(numpy.asarray(g, dtype=float)),
                     "eqcv": canon.enc(numpy.asarray(h, dtype=float)),
                     "calls": {r: list(logs[r]) for r in logs}}
+        return p, logs, one
+
+    def _run_evalfn(self, case):
+        enc = case["enc"]
+        X = case["X"]
+        p, logs, one = self._eval_problem(case)
         rows = [one(xv) for xv in X]
         Xa = numpy.stack([decision(enc, xv) for xv in X])
         res = p.evaluate(Xa, return_as_dictionary=True)
@@ -1048,7 +1193,9 @@ class C05(Prop):
             for r in ("obj", "ineqcv", "eqcv"):
                 setattr(p, r + "_wt", numpy.array([_f(v) for v in sec[r + "_wt"]], dtype=float))
                 if sec[r + "_trans"]["t"] != "default":
-                    _, kw = make_trans(sec[r + "_trans"], [])
+                    fn, kw = make_trans(sec[r + "_trans"], logs[r])
+                    if sec[r + "_trans"].get("refn"):
+                        setattr(p, r + "_trans", fn)
                     setattr(p, r + "_trans_kwargs", kw)
             obs["second"] = one(X[0])
             res2 = p.evaluate(decision(enc, X[0]), return_as_dictionary=True)
@@ -1097,6 +1244,14 @@ class C05(Prop):
                 reqs.append(dict(crit, op="c05.latent", **({"S": decn} if enc == "subset" else {"x": decn})))
                 lat = obs[which]["latent"]
                 reqs.append(dict(crit, op="c05.spec_latent", shares=sh, supp=supp, reported=[lat] if _finite(lat) else []))
+            # the stateful model (Model/SelectionObj.lean): constructor, the assignments of this history, latentfn
+            if case["crit"] in ("PAU", "PAFD", "MOGS"):
+                d1, d2 = case["data"], case["data2"]
+                reqs.append({"op": "c05.tf_history", "cls": case["crit"].lower(), "S": decn,
+                             **{k: d1[k] for k in ("geno", "ploidy", "mkrwt", "tfreq")},
+                             "ops": [{"set": k, "value": d2[k]} for k in ("geno", "ploidy", "mkrwt", "tfreq")]})
+            elif case["crit"] == "FAMILY":
+                reqs.append({"op": "c05.family_index", "ids": [int(v) for v in case["data2"]["familyid"]]})
             return reqs
         if kind == "guard":
             crit = CRITS[case["crit"]]["crit"](case["data"])
@@ -1119,17 +1274,21 @@ class C05(Prop):
             return reqs
         if kind == "evalfn":
             reqs = []
-            if all(self._eff_trans(case, r)["t"] in TRANS_BUILTIN for r in ("obj", "ineqcv", "eqcv")):
-                for xv, row in zip(case["X"], obs["rows"]):
-                    if not _finite(row["latent"]):
-                        continue
-                    reqs.append({"op": "c05.evalfn", "x": xv, "latent": row["latent"],
-                                 **{r + "_wt": case[r + "_wt"] for r in ("obj", "ineqcv", "eqcv")},
-                                 **{r + "_trans": self._eff_trans(case, r) for r in ("obj", "ineqcv", "eqcv")}})
+            for xv, row in zip(case["X"], obs["rows"]):
+                if not _finite(row["latent"]):
+                    continue
+                decl = self._declaration(case)
+                reqs.append(dict(decl, op="c05.evalfn", x=xv, latent=row["latent"]))
+                reqs.append(self._spec_evalfn_req(case, xv, row))
+            if "second" in case and "second" in obs and _finite(obs["second"]["latent"]):
+                reqs.append(self._spec_evalfn_req(dict(case, **case["second"]), case["X"][0], obs["second"]))
             return reqs
         if kind == "factory":
             from . import c05_factories
             return c05_factories.requests(case, obs)
+        if kind == "isolation":
+            from . import c05_isolation
+            return c05_isolation.requests(self, case, obs)
         raise ValueError(kind)
 
     # ------------------------------------------------------------------ verdicts
@@ -1157,6 +1316,18 @@ class C05(Prop):
                 # default weights (1) and transformation (identity): objectives = latent vector
                 if not _close_vec(o["obj"], o["latent"], 1e-12, 1e-15) or not _close_vec(o["F"], o["latent"], 1e-12, 1e-15):
                     bad_spec.append(f"{what}evalfn {o['obj']} / evaluate {o['F']} differ from latentfn {o['latent']}")
+            if len(answers) > 4:
+                h = answers[4]
+                if "err" in h:
+                    raise RuntimeError("driver error: " + h["err"])
+                o2 = obs["second"]
+                if case["crit"] == "FAMILY":
+                    if o2.get("familyix") is not None and (h["ok"]["familyix"] != o2["familyix"] or
+                                                           h["ok"]["family"] != o2["family"]):
+                        bad_corr.append(f"stored family index after the re-assignment: model={h['ok']} "
+                                        f"impl={o2['family']},{o2['familyix']}")
+                elif _finite(o2["latent"]) and not _close_vec(h["ok"], o2["latent"]):
+                    bad_corr.append(f"object model after the history: {h['ok']} impl={o2['latent']}")
             return {"corr": not bad_corr, "spec": not bad_spec, "nontrivial": case["data"] != case["data2"],
                     "detail": f"reassign[{case['crit']}/{case['enc']}/{case['mode']}] " +
                               ("; ".join(bad_spec + bad_corr)[:1500] if (bad_spec or bad_corr) else "ok")}
@@ -1179,6 +1350,9 @@ class C05(Prop):
         if kind == "factory":
             from . import c05_factories
             return c05_factories.judge(case, obs, answers)
+        if kind == "isolation":
+            from . import c05_isolation
+            return c05_isolation.judge(self, case, obs, answers)
         raise ValueError(kind)
 
     def _judge_lookahead(self, case, obs, answers):
@@ -1260,6 +1434,23 @@ class C05(Prop):
                 "detail": f"latent[{case['crit']}] " + "; ".join(bad_spec + bad_corr)[:1500] if (bad_corr or bad_spec)
                 else f"latent[{case['crit']}] {len(evs)} evaluations agree with model and definition"}
 
+    def _declaration(self, case):
+        """the evaluation declaration of a case part as the driver wants it (Selection.EvalCfg)"""
+        return {**{r + "_wt": case[r + "_wt"] for r in ("obj", "ineqcv", "eqcv")},
+                **{r + "_trans": {k: v for k, v in self._eff_trans(case, r).items() if k not in ("default_kw", "refn")}
+                   for r in ("obj", "ineqcv", "eqcv")}}
+
+    def _spec_evalfn_req(self, case, xv, row):
+        """Selection.evalOk on what the implementation reported; absolute tolerance as in _check_row (float
+        cancellation in a sum / dot product of the latent entries)"""
+        lat = row["latent"]
+        mag = max([1.0] + [abs(float(Fraction(v))) for v in lat] + [abs(float(Fraction(v))) for v in xv])
+        wmag = max([1.0] + [abs(float(Fraction(v))) for r in ("obj", "ineqcv", "eqcv") for v in case[r + "_wt"]] +
+                   [abs(float(Fraction(v))) for r in ("obj", "ineqcv", "eqcv") for v in case[r + "_trans"].get("w", [])])
+        return dict(self._declaration(case), op="c05.spec_evalfn", x=[canon.enc(Fraction(v)) for v in xv], latent=lat,
+                    obj=row["obj"], ineqcv=row["ineqcv"], eqcv=row["eqcv"],
+                    rel="1/1000000000000", abs=canon.enc(Fraction(1e-14 * mag * wmag * wmag)))
+
     @staticmethod
     def _eff_trans(case, r):
         d = case[r + "_trans"]
@@ -1267,7 +1458,7 @@ class C05(Prop):
             return {"t": "identity"} if r == "obj" else {"t": "empty"}
         return d
 
-    def _check_row(self, case, xv, row, bad_spec, what=""):
+    def _check_row(self, case, xv, row, bad_spec, what="", skip=()):
         """Spec of one evalfn call: exactly weight * declared transformation of (x, latentfn(x)), the declared
         keyword arguments handed over, every transformation called once with the decision and latent vectors"""
         lat = row["latent"]
@@ -1275,6 +1466,8 @@ class C05(Prop):
         # (cancellation can leave an absolute error of that size in a result that is exactly 0)
         mag = max([1.0] + [abs(float(Fraction(v))) for v in lat] + [abs(float(Fraction(v))) for v in xv])
         for r in ("obj", "ineqcv", "eqcv"):
+            if r in skip:
+                continue
             want_t = ref_trans(case[r + "_trans"], xv, lat, r)
             want = [canon.enc(Fraction(w) * v) for w, v in zip(case[r + "_wt"], want_t)]
             wmag = max([1.0] + [abs(float(Fraction(v))) for v in case[r + "_wt"]] +
@@ -1309,16 +1502,22 @@ class C05(Prop):
                 bad_spec.append(f"non-finite latent {lat}")
                 continue
             if builtin:
-                a = answers[ai]
-                ai += 1
-                if "err" in a:
-                    raise RuntimeError("driver error: " + a["err"])
+                a, sp = answers[ai], answers[ai + 1]
+                ai += 2
+                for q in (a, sp):
+                    if "err" in q:
+                        raise RuntimeError("driver error: " + q["err"])
                 mag = max([1.0] + [abs(float(Fraction(v))) for v in lat] + [abs(float(Fraction(v))) for v in xv])
                 for r in ("obj", "ineqcv", "eqcv"):
                     wmag = max([1.0] + [abs(float(Fraction(v))) for v in case[r + "_wt"]] +
                                [abs(float(Fraction(v))) for v in case[r + "_trans"].get("w", [])])
                     if not _close_vec(a["ok"][r], row[r], 1e-12, 1e-14 * mag * wmag * wmag):
                         bad_corr.append(f"{r}: model={a['ok'][r]} impl={row[r]}")
+                # the Lean oracle Selection.evalOk on the implementation's three vectors
+                if not sp["ok"]["ok"]:
+                    for r in sp["ok"]["bad"]:
+                        bad_spec.append(f"{r}: reported {row[r]} is not weights x declared transformation = "
+                                        f"{sp['ok']['want'][r]} (Selection.evalOk)")
             self._check_row(case, xv, row, bad_spec)
         # batch path
         names = {"F": "obj", "G": "ineqcv", "H": "eqcv"}
@@ -1339,6 +1538,12 @@ class C05(Prop):
             if row2["latent"] != obs["rows"][0]["latent"]:
                 bad_spec.append(f"latent vector changed from {obs['rows'][0]['latent']} to {row2['latent']} after re-assigning weights")
             elif _finite(row2["latent"]):
+                sp = answers[-1]
+                if "err" in sp:
+                    raise RuntimeError("driver error: " + sp["err"])
+                for r in sp["ok"]["bad"]:
+                    bad_spec.append(f"after re-assignment: {r}: reported {row2[r]} is not weights x declared "
+                                    f"transformation = {sp['ok']['want'][r]} (Selection.evalOk)")
                 self._check_row(dict(case, **case["second"]), case["X"][0], row2, bad_spec, "after re-assignment: ")
                 for key, r in names.items():
                     if len(case[r + "_wt"]) == 0:
